@@ -281,3 +281,38 @@ func VH_C19_Args() {
 	vCheck(rec.writes == 0, "args/nothing-written")
 	vReach("args/done")
 }
+
+// VH_C19_Header: Encoder.init for every accepted width and height (1 .. 0xFFFFFF, symbolic) and
+// each depth / colour type, over arbitrary prior contents of the first 0x30 buffer bytes (an
+// Encoder that has been used before): signature, IHDR length/type, big-endian width and height,
+// depth, colour-type code, three zero method bytes, CRC over type+payload.
+func VH_C19_Header() {
+	depth, ct := vhType(vParam("TYPE"))
+	var e Encoder
+	g := vBytes("garbage", 0x30)
+	for i := range g {
+		e.buf[i] = g[i]
+	}
+	w, h := vInt("w"), vInt("h")
+	vAssume(vAnd(1 <= w, w <= 0xFFFFFF))
+	vAssume(vAnd(1 <= h, h <= 0xFFFFFF))
+	e.init(w, h, depth, ct)
+	sig := []byte{0x89, 'P', 'N', 'G', 0x0D, 0x0A, 0x1A, 0x0A, 0, 0, 0, 0x0D, 'I', 'H', 'D', 'R'}
+	for i := range sig {
+		vCheck(e.buf[i] == sig[i], "header/signature-and-ihdr-framing")
+	}
+	vCheck(vhBE32(e.buf[0x10:0x14]) == uint32(w), "header/width")
+	vCheck(vhBE32(e.buf[0x14:0x18]) == uint32(h), "header/height")
+	vCheck(e.buf[0x18] == byte(depth), "header/depth")
+	want := byte(0)
+	switch ct {
+	case ColorTypeRGBX:
+		want = 2
+	case ColorTypeNRGBA:
+		want = 6
+	}
+	vCheck(e.buf[0x19] == want, "header/colour-type")
+	vCheck(vAnd(e.buf[0x1A] == 0, vAnd(e.buf[0x1B] == 0, e.buf[0x1C] == 0)), "header/methods-zero")
+	vCheck(vhBE32(e.buf[0x1D:0x21]) == vhCRC(e.buf[0x0C:0x1D]), "header/crc")
+	vReach("header/done")
+}
